@@ -376,6 +376,49 @@ class FilePart(Part):
         return res
 
 
+class LongHistory(Part):
+    name = "undo_after_long_history"
+    desc = "one long history per configuration (horizon): every k-th image produced by a busy anonymizer is undone by a fresh one, and the busy one undoes its own"
+
+    def __init__(self, tier, seed):
+        self.tier, self.seed = tier, seed
+
+    def cases(self):
+        n = 12000 if self.tier == "quick" else 60000
+        return [{"fam": "4", "B": B, "env": ["md5", "saltForTest"], "prefixes": pref, "networks": nets, "n": n}
+                for B in (0, 8) for pref, nets in ((None, None), (["10.0.0.0/8", "200.0.0.0/7"], ["10.9.0.0/16"]))] + \
+               [{"fam": "6", "B": 8, "env": ["md5", "saltForTest"], "n": n // 4}]
+
+    def run(self, cfg):
+        res = Res()
+        base = {k: v for k, v in cfg.items() if k != "n"}
+        L = ipdom.width(cfg)
+        busy = ipdom.make(base)
+        undo_busy = ipdom.make(base)
+        step = 97
+        for i, a in enumerate(ipdom.scattered(self.seed, L, cfg["n"])):
+            b = busy.anonymize(a)
+            back2 = undo_busy.deanonymize(b)      # a second busy instance that only ever undoes
+            res.transitions += 2
+            bad = None
+            if back2 != a:
+                bad = ("busy-undo-wrong", back2)
+            elif i % step == 0:
+                res.evals += 1
+                back = ipdom.make(base).deanonymize(b)
+                if back != a:
+                    bad = ("fresh-undo-of-busy-image-wrong", back)
+            if bad:
+                res.violation("%s|%s" % (bad[0], cfg["fam"]),
+                              "cfg %r: request %d anonymize(%d)=%d, undone to %d" % (base, i, a, b, bad[1]), cfg)
+                return res
+        res.states = 1
+        res.nt((cfg["fam"], cfg["B"], repr(cfg.get("prefixes"))))
+        res.out(len(getattr(busy, "cache", ())))
+        res.samples.append({"cfg": base, "requests": cfg["n"]})
+        return res
+
+
 def parts(tier, seed):
-    return [GraphPart(tier, seed), ColdInversePart(tier, seed), LinePart(tier, seed),
+    return [GraphPart(tier, seed), ColdInversePart(tier, seed), LinePart(tier, seed), LongHistory(tier, seed),
             FilePart(tier, seed)]
